@@ -11,7 +11,7 @@ use crate::Ctx;
 
 /// clone/drop/gc-heavy histories, large capacity (no background collector interference)
 pub fn histories(ctx: &mut Ctx) {
-    let nh = ctx.by_tier(15, 100);
+    let nh = ctx.by_tier(15, 500);
     let steps = ctx.by_tier(300, 1000);
     let mut rng = ctx.rng(0xC05);
     for h in 0..nh {
@@ -44,7 +44,7 @@ pub fn histories(ctx: &mut Ctx) {
 /// Capacities 128..400: the high-water mark (95 %) is reached, so OxiDD's background collector
 /// fires on its own while the history runs; operations may fail with OutOfMemory.
 pub fn background_gc(ctx: &mut Ctx) {
-    let nh = ctx.by_tier(12, 60);
+    let nh = ctx.by_tier(12, 300);
     let steps = ctx.by_tier(600, 2000);
     let mut rng = ctx.rng(0xC05_B);
     for h in 0..nh {
@@ -146,7 +146,7 @@ where
 }
 
 pub fn probe(ctx: &mut Ctx) {
-    let n = ctx.by_tier(60, 600);
+    let n = ctx.by_tier(60, 3000);
     let mut rng = ctx.rng(0xC05_C);
     for i in 0..n {
         let cap = rng.range(30, 99);
